@@ -9,7 +9,11 @@
      (b) what Cls.fromProtocolTreeNode does with it     -> get     : schema -> node -> option val
      (c) what entity.toProtocolTreeNode produces        -> put     : schema -> val  -> option node
    and lossless : schema -> bool is a computed sufficient condition for
-   put (get n) ~ n on every node of the documented shape (C09Proofs.lens_get_put_thm).      *)
+   put (get n) ~ n on every node of the documented shape (C09Proofs.lens_get_put_thm).
+
+   Message payloads (<proto> data) are OPAQUE here: get/put/matches/~ take a payload lens
+   PL : paylens (parse+convert, convert+serialise, payload domain, payload equivalence); the
+   lens theorem assumes pl_lossless PL, which is C10's subject.                           *)
 From YV Require Import Common.Tac.
 From Coq Require Import Decimal DecimalN String Ascii.
 Local Open Scope N_scope.
@@ -108,31 +112,19 @@ Definition oa_eqvb (a b : option aval) : bool :=
   | _, _ => false
   end.
 
-(* n' ~ n : same tag, same data, attribute dicts equal as maps up to aval_eqvb, children
-   pairwise equivalent IN ORDER *)
-Inductive neqv : node -> node -> Prop :=
-| NEqv : forall t a a' d k k',
-    NoDup (map fst a) -> NoDup (map fst a') ->
-    (forall key, oa_eqvb (lookup key a) (lookup key a') = true) ->
-    Forall2 neqv k k' ->
-    neqv (Node t a d k) (Node t a' d k').
-
 (* ------------------------------------------------------------------ field values *)
-Inductive val :=
-| VNone | VStr (x : str) | VInt (n : N) | VBool (b : bool) | VBytes (b : list N)
-| VList (l : list val).
+(* attribute fields: what fromProtocolTreeNode keeps of one attribute *)
+Inductive fv := FNone | FStr (x : str) | FInt (n : N) | FBool (b : bool).
 
-Definition truthy (v : val) : bool :=
+Definition truthy (v : fv) : bool :=
   match v with
-  | VNone => false
-  | VStr x => negb (is_nil x)
-  | VInt n => negb (n =? 0)
-  | VBool b => b
-  | VBytes b => negb (is_nil b)
-  | VList l => negb (is_nil l)
+  | FNone => false
+  | FStr x => negb (is_nil x)
+  | FInt n => negb (n =? 0)
+  | FBool b => b
   end.
 
-Definition is_vnone (v : val) : bool := match v with VNone => true | _ => false end.
+Definition is_fnone (v : fv) : bool := match v with FNone => true | _ => false end.
 
 (* ------------------------------------------------------------------ attribute rules *)
 (* what the from-side does with node[name] and what the to-side writes back *)
@@ -145,58 +137,74 @@ Inductive conv :=
 | CEqC (c t f : str)         (* x == c  ...  t if b else f          (absent -> False)      *)
 | CEqCOpt (c t f : str)      (* None if absent else x == c ... t if b else f               *)
 | CTruthy (t f : str)        (* kept as is ... t if x else f                               *)
-| CConst (v : str).          (* ignored ... constant v                                     *)
+| CConst (v : str)           (* ignored ... constant v                                     *)
+| CIntClock                  (* int(x) if x else None ... `v or now()` ... str(i): a zero or
+                                absent value is replaced by the clock (not modelled: put fails) *)
+| CParent (k : str).         (* ignored ... the value the PARENT node carries under key k
+                                (retry/@id = receipt/@id)                                    *)
 
 Inductive emit := EAlways | EIfNotNone | EIfTruthy.
 Inductive shape := ShReq | ShOpt | ShExcl (other : str).   (* ShExcl o: optional, never with o *)
-Inductive dom := DAny | DDec | DEnum (l : list str).
+Inductive dom := DAny | DDec | DDecPos | DEnum (l : list str).   (* DDecPos: decimal, value > 0 *)
 
 Record arule := AR { a_name : str; a_conv : conv; a_emit : emit; a_shape : shape; a_dom : dom }.
 
-Definition int_in (x : str) : option val :=
-  match dec x with Some n => Some (VInt n) | None => None end.
+Definition int_in (x : str) : option fv :=
+  match dec x with Some n => Some (FInt n) | None => None end.
 
-Definition conv_in (c : conv) (o : option str) : option val :=
+Definition conv_in (c : conv) (o : option str) : option fv :=
   match c, o with
-  | CStr, Some x => Some (VStr x)
-  | CStr, None => Some VNone
+  | CStr, Some x => Some (FStr x)
+  | CStr, None => Some FNone
   | CInt, Some x => int_in x
   | CInt, None => None
   | CIntRaw, Some x => int_in x
   | CIntRaw, None => None
   | CIntOpt, Some x => int_in x
-  | CIntOpt, None => Some VNone
-  | CIntDef0, Some [] => Some (VInt 0)
+  | CIntOpt, None => Some FNone
+  | CIntDef0, Some [] => Some (FInt 0)
   | CIntDef0, Some x => int_in x
-  | CIntDef0, None => Some (VInt 0)
-  | CEqC c _ _, Some x => Some (VBool (str_eqb x c))
-  | CEqC _ _ _, None => Some (VBool false)
-  | CEqCOpt c _ _, Some x => Some (VBool (str_eqb x c))
-  | CEqCOpt _ _ _, None => Some VNone
-  | CTruthy _ _, Some x => Some (VStr x)
-  | CTruthy _ _, None => Some VNone
-  | CConst _, _ => Some VNone
+  | CIntDef0, None => Some (FInt 0)
+  | CEqC c _ _, Some x => Some (FBool (str_eqb x c))
+  | CEqC _ _ _, None => Some (FBool false)
+  | CEqCOpt c _ _, Some x => Some (FBool (str_eqb x c))
+  | CEqCOpt _ _ _, None => Some FNone
+  | CTruthy _ _, Some x => Some (FStr x)
+  | CTruthy _ _, None => Some FNone
+  | CConst _, _ => Some FNone
+  | CIntClock, Some x =>
+    match dec x with Some n => Some (if n =? 0 then FNone else FInt n) | None => None end
+  | CIntClock, None => Some FNone
+  | CParent _, _ => Some FNone
   end.
 
-Definition conv_out (c : conv) (v : val) : option aval :=
+Definition conv_out (c : conv) (v : fv) : option aval :=
   match c, v with
-  | CStr, VStr x => Some (AStr x)
-  | CStr, VNone => Some ANone
-  | CInt, VInt n => Some (AStr (to_dec n))
-  | CIntOpt, VInt n => Some (AStr (to_dec n))
-  | CIntOpt, VNone => Some ANone
-  | CIntDef0, VInt n => Some (AStr (to_dec n))
-  | CIntRaw, VInt n => Some (AInt n)
-  | CEqC _ t f, VBool b => Some (AStr (if b then t else f))
-  | CEqCOpt _ t f, VBool b => Some (AStr (if b then t else f))
-  | CEqCOpt _ _ _, VNone => Some ANone
+  | CStr, FStr x => Some (AStr x)
+  | CStr, FNone => Some ANone
+  | CInt, FInt n => Some (AStr (to_dec n))
+  | CIntOpt, FInt n => Some (AStr (to_dec n))
+  | CIntOpt, FNone => Some ANone
+  | CIntDef0, FInt n => Some (AStr (to_dec n))
+  | CIntRaw, FInt n => Some (AInt n)
+  | CEqC _ t f, FBool b => Some (AStr (if b then t else f))
+  | CEqCOpt _ t f, FBool b => Some (AStr (if b then t else f))
+  | CEqCOpt _ _ _, FNone => Some ANone
   | CTruthy t f, v => Some (AStr (if truthy v then t else f))
   | CConst c, _ => Some (AStr c)
+  | CIntClock, FInt n => Some (AStr (to_dec n))
   | _, _ => None
   end.
 
-Definition emits (e : emit) (v : val) : bool :=
-  match e with EAlways => true | EIfNotNone => negb (is_vnone v) | EIfTruthy => truthy v end.
+(* env = the attributes the parent node carries (put: the ones just written for it) *)
+Definition conv_out_e (c : conv) (env : list (str * aval)) (v : fv) : option aval :=
+  match c with
+  | CParent k => lookup k env
+  | _ => conv_out c v
+  end.
+
+Definition emits (e : emit) (v : fv) : bool :=
+  match e with EAlways => true | EIfNotNone => negb (is_fnone v) | EIfTruthy => truthy v end.
 
 (* node[name] as the from-side sees it: Some None = absent; None = a non-str value (never
    on an incoming node) *)
@@ -207,19 +215,19 @@ Definition lookup_s (k : str) (attrs : list (str * aval)) : option (option str) 
   | Some _ => None
   end.
 
-Definition get_attr (r : arule) (attrs : list (str * aval)) : option val :=
+Definition get_attr (r : arule) (attrs : list (str * aval)) : option fv :=
   match lookup_s (a_name r) attrs with
   | Some o => conv_in (a_conv r) o
   | None => None
   end.
 
-Definition put_attr (r : arule) (v : val) : option (list (str * aval)) :=
-  match conv_out (a_conv r) v with
+Definition put_attr (r : arule) (env : list (str * aval)) (v : fv) : option (list (str * aval)) :=
+  match conv_out_e (a_conv r) env v with
   | Some a => Some (if emits (a_emit r) v then [(a_name r, a)] else [])
   | None => None
   end.
 
-Fixpoint get_attrs (rs : list arule) (attrs : list (str * aval)) : option (list val) :=
+Fixpoint get_attrs (rs : list arule) (attrs : list (str * aval)) : option (list fv) :=
   match rs with
   | [] => Some []
   | r :: rs' =>
@@ -229,11 +237,12 @@ Fixpoint get_attrs (rs : list arule) (attrs : list (str * aval)) : option (list 
     end
   end.
 
-Fixpoint put_attrs (rs : list arule) (vs : list val) : option (list (str * aval)) :=
+Fixpoint put_attrs (rs : list arule) (env : list (str * aval)) (vs : list fv)
+  : option (list (str * aval)) :=
   match rs, vs with
   | [], [] => Some []
   | r :: rs', v :: vs' =>
-    match put_attr r v, put_attrs rs' vs' with
+    match put_attr r env v, put_attrs rs' env vs' with
     | Some a, Some rest => Some (a ++ rest)
     | _, _ => None
     end
@@ -244,16 +253,22 @@ Definition in_dom (d : dom) (x : str) : bool :=
   match d with
   | DAny => negb (is_nil x)
   | DDec => match dec x with Some _ => true | None => false end
+  | DDecPos => match dec x with Some n => negb (n =? 0) | None => false end
   | DEnum l => mem x l
   end.
 
-Definition attr_matches (attrs : list (str * aval)) (r : arule) : bool :=
+(* env = the attributes of the parent node *)
+Definition attr_matches (env attrs : list (str * aval)) (r : arule) : bool :=
   match lookup (a_name r) attrs with
   | None => match a_shape r with ShReq => false | _ => true end
   | Some (AStr x) =>
     in_dom (a_dom r) x &&
     match a_shape r with
     | ShExcl o => match lookup o attrs with None => true | Some _ => false end
+    | _ => true
+    end &&
+    match a_conv r with
+    | CParent k => match lookup k env with Some (AStr y) => str_eqb x y | _ => false end
     | _ => true
     end
   | Some _ => false
@@ -285,18 +300,36 @@ Definition conv_inf_ok (c : conv) (e : emit) (d : dom) : bool :=
   | DDec, CIntOpt, EIfNotNone => true
   | DDec, CIntDef0, EAlways => true
   | DDec, CIntDef0, EIfNotNone => true
+  | DDecPos, CStr, _ => true
+  | DDecPos, CInt, _ => true
+  | DDecPos, CIntOpt, _ => true
+  | DDecPos, CIntDef0, _ => true
+  | DDecPos, CIntClock, _ => true
   | _, _, _ => false
   end.
 
 Definition attr_lossless (r : arule) : bool :=
-  match a_shape r with ShReq => true | _ => attr_rt r None end &&
-  match a_dom r with
-  | DEnum l => forallb (fun x => attr_rt r (Some x)) l
-  | d => conv_inf_ok (a_conv r) (a_emit r) d
+  match a_conv r with
+  | CParent _ =>                       (* always written, equal to the parent's by matches *)
+    match a_shape r, a_emit r with ShReq, EAlways => true | _, _ => false end
+  | _ =>
+    match a_shape r with ShReq => true | _ => attr_rt r None end &&
+    match a_dom r with
+    | DEnum l => forallb (fun x => attr_rt r (Some x)) l
+    | d => conv_inf_ok (a_conv r) (a_emit r) d
+    end
   end.
 
 (* ------------------------------------------------------------------ data rules *)
-Inductive drule := DNone | DBytes | DUtf8.
+Inductive drule :=
+| DNone                      (* no data; never looked at                                    *)
+| DBytes                     (* node.data kept as is (may be absent)                        *)
+| DUtf8                      (* data.decode() ... s.encode()                                *)
+| DBytesNE                   (* kept as is; the to-side replaces an empty value (`x or ...`) *)
+| DByte                      (* one byte <-> int   (struct.pack('<B', i))                   *)
+| DBe32                      (* int(hexlify(data), 16) ... unhexlify(format(i,'x').zfill(8)) *)
+| DConst (c : list N)        (* never read; a constant is written                           *)
+| DPayload.                  (* the message payload: handled by the payload lens            *)
 
 Definition cont (c : N) : bool := (128 <=? c) && (c <=? 191).
 
@@ -330,45 +363,59 @@ Fixpoint utf8_valid (b : list N) : bool :=
     else false
   end.
 
-Definition get_data (d : drule) (data : option (list N)) : option val :=
-  match d, data with
-  | DNone, _ => Some VNone                       (* the code never looks at it *)
-  | DBytes, Some b => Some (VBytes b)
-  | DBytes, None => Some VNone
-  | DUtf8, Some b => if utf8_valid b then Some (VBytes b) else None
-  | DUtf8, None => None
-  end.
+Definition bytes_ok (b : list N) : bool := forallb (fun c => c <? 256) b.
 
-Definition put_data (d : drule) (v : val) : option (option (list N)) :=
-  match d, v with
-  | DNone, _ => Some None
-  | DBytes, VBytes b => Some (Some b)
-  | DBytes, VNone => Some None
-  | DUtf8, VBytes b => Some (Some b)
-  | _, _ => None
-  end.
+(* big-endian value of a byte string *)
+Definition be_val (b : list N) : N := fold_left (fun acc c => acc * 256 + c) b 0.
 
-Definition data_matches (d : drule) (data : option (list N)) : bool :=
-  match d, data with
-  | DNone, None => true
-  | DNone, Some _ => false
-  | DBytes, _ => true
-  | DUtf8, Some b => utf8_valid b
-  | DUtf8, None => false
-  end.
+(* unhexlify(format(n, 'x').zfill(8)) for n < 2^32 (above, the real code writes more digits or
+   raises on an odd count: not modelled, put fails) *)
+Definition be32 (n : N) : list N :=
+  [n / 16777216; (n / 65536) mod 256; (n / 256) mod 256; n mod 256].
+
+(* ------------------------------------------------------------------ payload lens *)
+(* What the message classes do with the <proto> data:
+     pl_get = Message.ParseFromString + AttributesConverter.proto_to_message
+     pl_put = AttributesConverter.message_to_protobytes
+     pl_dom = the documented payloads
+     pl_eqv out inp = the two byte strings parse to the same protobuf message (field-wise)  *)
+Record paylens := PayLens {
+  pl_obj : Type;
+  pl_get : list N -> option pl_obj;
+  pl_put : pl_obj -> option (list N);
+  pl_dom : list N -> bool;
+  pl_eqv : list N -> list N -> Prop }.
+
+(* the hypothesis of the lens theorem on payload-carrying schemas (C10's subject) *)
+Definition pl_lossless (PL : paylens) : Prop :=
+  forall b, pl_dom PL b = true ->
+  exists a b', pl_get PL b = Some a /\ pl_put PL a = Some b' /\ pl_eqv PL b' b.
+
+(* the ideal payload lens: the bytes themselves, reproduced exactly *)
+Definition pl_id : paylens :=
+  PayLens (list N) (fun b => Some b) (fun b => Some b)
+          (fun b => negb (is_nil b) && bytes_ok b) (fun b' b => b' = b).
+
+(* tags of payload-carrying nodes: only there may data differ (up to pl_eqv) *)
+Definition payload_tags : list str := Eval vm_compute in [s "proto"].
 
 (* ------------------------------------------------------------------ schemas *)
-Inductive ukey := UNone | UAttr (k : str) | UData.     (* list items are dict keys: distinct *)
+Inductive ukey := UNone | UAttr (k : str) | UData | UKid (t : str).
+(* list items are dict keys: distinct by an attribute, by their data, or by the data of their
+   child t *)
 Inductive mult :=
 | MOne                      (* exactly one child                                            *)
 | MOpt (nonempty : bool)    (* zero or one child; nonempty: when present it has children    *)
 | MList (u : ukey).         (* zero or more consecutive children                            *)
 
+(* tags = [] : any tag (the tag is a field: stream:features children) *)
 Inductive schema := SNode (tags : list str) (ars : list arule) (d : drule) (ks : krules)
 with krules := KNil | KCons (m : mult) (c : schema) (ks : krules).
 
+Definition tag_ok (tags : list str) (t : str) : bool := is_nil tags || mem t tags.
+
 Definition tag_in (c : schema) (n : node) : bool :=
-  match c, n with SNode tags _ _ _, Node t _ _ _ => mem t tags end.
+  match c, n with SNode tags _ _ _, Node t _ _ _ => tag_ok tags t end.
 
 Fixpoint span (p : node -> bool) (l : list node) : list node * list node :=
   match l with
@@ -384,98 +431,16 @@ Fixpoint mapM {A B} (f : A -> option B) (l : list A) : option (list B) :=
 
 Definition names (rs : list arule) : list str := map a_name rs.
 
-(* fromProtocolTreeNode.  The entity is VList [VStr tag; VList attr-fields; data; VList kid-fields] *)
-Fixpoint get (sc : schema) (n : node) {struct sc} : option val :=
-  match sc, n with
-  | SNode tags ars d ks, Node t attrs data kids =>
-    if mem t tags then
-      match get_attrs ars attrs, get_data d data, get_kids ks kids with
-      | Some va, Some vd, Some vk => Some (VList [VStr t; VList va; vd; VList vk])
-      | _, _, _ => None
-      end
-    else None
-  end
-with get_kids (ks : krules) (kids : list node) {struct ks} : option (list val) :=
-  match ks with
-  | KNil => match kids with [] => Some [] | _ => None end
-  | KCons m c ks' =>
-    match m with
-    | MOne =>
-      match kids with
-      | x :: rest =>
-        if tag_in c x then
-          match get c x, get_kids ks' rest with
-          | Some v, Some vs => Some (v :: vs)
-          | _, _ => None
-          end
-        else None
-      | [] => None
-      end
-    | MOpt _ =>
-      match kids with
-      | x :: rest =>
-        if tag_in c x then
-          match get c x, get_kids ks' rest with
-          | Some v, Some vs => Some (v :: vs)
-          | _, _ => None
-          end
-        else match get_kids ks' kids with Some vs => Some (VNone :: vs) | None => None end
-      | [] => match get_kids ks' [] with Some vs => Some (VNone :: vs) | None => None end
-      end
-    | MList _ =>
-      let '(pre, rest) := span (tag_in c) kids in
-      match mapM (get c) pre, get_kids ks' rest with
-      | Some vl, Some vs => Some (VList vl :: vs)
-      | _, _ => None
-      end
-    end
-  end.
-
-(* toProtocolTreeNode *)
-Fixpoint put (sc : schema) (v : val) {struct sc} : option node :=
-  match sc with
-  | SNode tags ars d ks =>
-    match v with
-    | VList (VStr t :: VList va :: vd :: VList vk :: nil) =>
-      if mem t tags then
-        match put_attrs ars va, put_data d vd, put_kids ks vk with
-        | Some a, Some dd, Some kk => Some (Node t a dd kk)
-        | _, _, _ => None
-        end
-      else None
-    | _ => None
-    end
-  end
-with put_kids (ks : krules) (vs : list val) {struct ks} : option (list node) :=
-  match ks with
-  | KNil => match vs with [] => Some [] | _ => None end
-  | KCons m c ks' =>
-    match vs with
-    | [] => None
-    | v :: vs' =>
-      match put_kids ks' vs' with
-      | None => None
-      | Some rest =>
-        match m with
-        | MOne => match put c v with Some x => Some (x :: rest) | None => None end
-        | MOpt _ =>
-          if is_vnone v then Some rest
-          else match put c v with Some x => Some (x :: rest) | None => None end
-        | MList _ =>
-          match v with
-          | VList l => match mapM (put c) l with Some xs => Some (xs ++ rest) | None => None end
-          | _ => None
-          end
-        end
-      end
-    end
-  end.
-
 Definition ukey_of (u : ukey) (n : node) : option str :=
   match u with
   | UNone => None
   | UAttr k => match lookup k (node_attrs n) with Some (AStr x) => Some x | _ => None end
   | UData => node_data n
+  | UKid t =>
+    match filter (fun k => str_eqb (node_tag k) t) (node_kids n) with
+    | k :: _ => node_data k
+    | [] => None
+    end
   end.
 
 Fixpoint omap {A B} (f : A -> option B) (l : list A) : list B :=
@@ -487,47 +452,243 @@ Definition uniq_ok (u : ukey) (l : list node) : bool :=
 Definition keys_in (attrs : list (str * aval)) (ns : list str) : bool :=
   forallb (fun kv => mem (fst kv) ns) attrs.
 
-(* the documented shape *)
-Fixpoint matches (sc : schema) (n : node) {struct sc} : bool :=
+Section WithPayload.
+Variable PL : paylens.
+
+(* n' ~ n : same tag, same data (on a payload node: pl_eqv), attribute dicts equal as maps up
+   to aval_eqvb, children pairwise equivalent IN ORDER *)
+Definition deqv (t : str) (d' d : option (list N)) : Prop :=
+  d' = d \/
+  (mem t payload_tags = true /\ exists b' b, d' = Some b' /\ d = Some b /\ pl_eqv PL b' b).
+
+Inductive neqv : node -> node -> Prop :=
+| NEqv : forall t a a' d d' k k',
+    NoDup (map fst a) -> NoDup (map fst a') ->
+    (forall key, oa_eqvb (lookup key a) (lookup key a') = true) ->
+    deqv t d d' ->
+    Forall2 neqv k k' ->
+    neqv (Node t a d k) (Node t a' d' k').
+
+(* entity values: VList [VStr tag; VAttrs attribute-fields; data-field; VList child-fields] *)
+Inductive val :=
+| VNone | VStr (x : str) | VInt (n : N) | VBytes (b : list N) | VAttrs (l : list fv)
+| VPay (a : pl_obj PL) | VList (l : list val).
+
+Definition is_vnone (v : val) : bool := match v with VNone => true | _ => false end.
+
+Definition get_data (d : drule) (data : option (list N)) : option val :=
+  match d, data with
+  | DNone, _ => Some VNone                       (* the code never looks at it *)
+  | DBytes, Some b => Some (VBytes b)
+  | DBytes, None => Some VNone
+  | DUtf8, Some b => if utf8_valid b then Some (VBytes b) else None
+  | DUtf8, None => None
+  | DBytesNE, Some b => Some (VBytes b)
+  | DBytesNE, None => Some VNone
+  | DByte, Some [c] => Some (VInt c)
+  | DByte, _ => None
+  | DBe32, Some [] => None
+  | DBe32, Some b => Some (VInt (be_val b))
+  | DBe32, None => None
+  | DConst _, _ => Some VNone
+  | DPayload, Some b => match pl_get PL b with Some a => Some (VPay a) | None => None end
+  | DPayload, None => None
+  end.
+
+Definition put_data (d : drule) (v : val) : option (option (list N)) :=
+  match d, v with
+  | DNone, _ => Some None
+  | DBytes, VBytes b => Some (Some b)
+  | DBytes, VNone => Some None
+  | DUtf8, VBytes b => Some (Some b)
+  | DBytesNE, VBytes b => if is_nil b then None else Some (Some b)
+  | DByte, VInt n => if n <? 256 then Some (Some [n]) else None
+  | DBe32, VInt n => if n <? 4294967296 then Some (Some (be32 n)) else None
+  | DConst c, _ => Some (Some c)
+  | DPayload, VPay a => match pl_put PL a with Some b => Some (Some b) | None => None end
+  | _, _ => None
+  end.
+
+Definition data_matches (d : drule) (data : option (list N)) : bool :=
+  match d, data with
+  | DNone, None => true
+  | DNone, Some _ => false
+  | DBytes, _ => true
+  | DUtf8, Some b => utf8_valid b
+  | DUtf8, None => false
+  | DBytesNE, Some b => negb (is_nil b)
+  | DBytesNE, None => false
+  | DByte, Some [c] => c <? 256
+  | DByte, _ => false
+  | DBe32, Some [a; b; c; e] => bytes_ok [a; b; c; e]
+  | DBe32, _ => false
+  | DConst c, Some b => str_eqb b c
+  | DConst _, None => false
+  | DPayload, Some b => pl_dom PL b
+  | DPayload, None => false
+  end.
+
+End WithPayload.
+
+Arguments VNone {PL}.
+Arguments VStr {PL} x.
+Arguments VInt {PL} n.
+Arguments VBytes {PL} b.
+Arguments VAttrs {PL} l.
+Arguments VPay {PL} a.
+Arguments VList {PL} l.
+Arguments is_vnone {PL} v.
+
+(* PL is a parameter of the fixpoints themselves (not a section variable), so that cbn can
+   refold the mutual definitions *)
+(* fromProtocolTreeNode *)
+Fixpoint get (PL : paylens) (sc : schema) (n : node) {struct sc} : option (val PL) :=
   match sc, n with
   | SNode tags ars d ks, Node t attrs data kids =>
-    mem t tags && nodupb (map fst attrs) && keys_in attrs (names ars) &&
-    forallb (attr_matches attrs) ars && data_matches d data && matches_kids ks kids
+    if tag_ok tags t then
+      match get_attrs ars attrs, get_data PL d data, get_kids PL ks kids with
+      | Some va, Some vd, Some vk => Some (VList [VStr t; VAttrs va; vd; VList vk])
+      | _, _, _ => None
+      end
+    else None
   end
-with matches_kids (ks : krules) (kids : list node) {struct ks} : bool :=
+with get_kids (PL : paylens) (ks : krules) (kids : list node) {struct ks} : option (list (val PL)) :=
+  match ks with
+  | KNil => match kids with [] => Some [] | _ => None end
+  | KCons m c ks' =>
+    match m with
+    | MOne =>
+      match kids with
+      | x :: rest =>
+        if tag_in c x then
+          match get PL c x, get_kids PL ks' rest with
+          | Some v, Some vs => Some (v :: vs)
+          | _, _ => None
+          end
+        else None
+      | [] => None
+      end
+    | MOpt _ =>
+      match kids with
+      | x :: rest =>
+        if tag_in c x then
+          match get PL c x, get_kids PL ks' rest with
+          | Some v, Some vs => Some (v :: vs)
+          | _, _ => None
+          end
+        else match get_kids PL ks' kids with Some vs => Some (VNone :: vs) | None => None end
+      | [] => match get_kids PL ks' [] with Some vs => Some (VNone :: vs) | None => None end
+      end
+    | MList _ =>
+      let '(pre, rest) := span (tag_in c) kids in
+      match mapM (get PL c) pre, get_kids PL ks' rest with
+      | Some vl, Some vs => Some (VList vl :: vs)
+      | _, _ => None
+      end
+    end
+  end.
+
+(* toProtocolTreeNode; env = the attributes written for the parent node *)
+Fixpoint put (PL : paylens) (sc : schema) (env : list (str * aval)) (v : val PL) {struct sc} : option node :=
+  match sc with
+  | SNode tags ars d ks =>
+    match v with
+    | VList (VStr t :: VAttrs va :: vd :: VList vk :: nil) =>
+      if tag_ok tags t then
+        match put_attrs ars env va with
+        | Some a =>
+          match put_data PL d vd, put_kids PL ks a vk with
+          | Some dd, Some kk => Some (Node t a dd kk)
+          | _, _ => None
+          end
+        | None => None
+        end
+      else None
+    | _ => None
+    end
+  end
+with put_kids (PL : paylens) (ks : krules) (env : list (str * aval)) (vs : list (val PL)) {struct ks}
+  : option (list node) :=
+  match ks with
+  | KNil => match vs with [] => Some [] | _ => None end
+  | KCons m c ks' =>
+    match vs with
+    | [] => None
+    | v :: vs' =>
+      match put_kids PL ks' env vs' with
+      | None => None
+      | Some rest =>
+        match m with
+        | MOne => match put PL c env v with Some x => Some (x :: rest) | None => None end
+        | MOpt _ =>
+          if is_vnone v then Some rest
+          else match put PL c env v with Some x => Some (x :: rest) | None => None end
+        | MList _ =>
+          match v with
+          | VList l => match mapM (put PL c env) l with Some xs => Some (xs ++ rest) | None => None end
+          | _ => None
+          end
+        end
+      end
+    end
+  end.
+
+(* the documented shape; env = the attributes of the parent node *)
+Fixpoint matches (PL : paylens) (sc : schema) (env : list (str * aval)) (n : node) {struct sc} : bool :=
+  match sc, n with
+  | SNode tags ars d ks, Node t attrs data kids =>
+    tag_ok tags t && nodupb (map fst attrs) && keys_in attrs (names ars) &&
+    forallb (attr_matches env attrs) ars && data_matches PL d data && matches_kids PL ks attrs kids
+  end
+with matches_kids (PL : paylens) (ks : krules) (env : list (str * aval)) (kids : list node) {struct ks} : bool :=
   match ks with
   | KNil => is_nil kids
   | KCons m c ks' =>
     match m with
     | MOne =>
       match kids with
-      | x :: rest => tag_in c x && matches c x && matches_kids ks' rest
+      | x :: rest => tag_in c x && matches PL c env x && matches_kids PL ks' env rest
       | [] => false
       end
     | MOpt ne =>
       match kids with
       | x :: rest =>
         if tag_in c x then
-          matches c x && (negb ne || negb (is_nil (node_kids x))) && matches_kids ks' rest
-        else matches_kids ks' kids
-      | [] => matches_kids ks' []
+          matches PL c env x && (negb ne || negb (is_nil (node_kids x))) && matches_kids PL ks' env rest
+        else matches_kids PL ks' env kids
+      | [] => matches_kids PL ks' env []
       end
     | MList u =>
       let '(pre, rest) := span (tag_in c) kids in
-      forallb (matches c) pre && uniq_ok u pre && matches_kids ks' rest
+      forallb (matches PL c env) pre && uniq_ok u pre && matches_kids PL ks' env rest
     end
   end.
 
-(* computed sufficient condition for put (get n) ~ n on matching nodes *)
+(* computed sufficient condition for put (get n) ~ n on matching nodes (given pl_lossless) *)
+Definition data_lossless (tags : list str) (d : drule) : bool :=
+  match d with
+  | DPayload => negb (is_nil tags) && forallb (fun t => mem t payload_tags) tags
+  | _ => true
+  end.
+
 Fixpoint lossless (sc : schema) : bool :=
   match sc with
-  | SNode tags ars d ks => nodupb (names ars) && forallb attr_lossless ars && lossless_kids ks
+  | SNode tags ars d ks =>
+    nodupb (names ars) && forallb attr_lossless ars && data_lossless tags d && lossless_kids ks
   end
 with lossless_kids (ks : krules) : bool :=
   match ks with
   | KNil => true
   | KCons m c ks' => lossless c && lossless_kids ks'
   end.
+
+(* schemas without a payload rule: there ~ is strict on data whatever the payload lens *)
+Fixpoint payload_free (sc : schema) : bool :=
+  match sc with
+  | SNode _ _ d ks => match d with DPayload => false | _ => true end && payload_free_kids ks
+  end
+with payload_free_kids (ks : krules) : bool :=
+  match ks with KNil => true | KCons _ c ks' => payload_free c && payload_free_kids ks' end.
 
 (* schema sanity for the tie (not needed by the lens theorem): the code finds children by
    tag (getChild(tag)), the model parses them left to right; both agree when sibling rules
@@ -557,7 +718,7 @@ Definition attr_wf (kv : str * aval) : bool :=
 Definition content_wf (d : option (list N)) (k : list node) : bool :=
   match d, k with
   | None, _ => true
-  | Some b, [] => negb (is_nil b) && forallb (fun c => c <? 256) b
+  | Some b, [] => negb (is_nil b) && bytes_ok b
   | Some _, _ :: _ => false
   end.
 
@@ -584,42 +745,54 @@ Definition conv_consts_wf (c : conv) : bool :=
 
 Definition arule_safe (r : arule) : bool := str_wf (a_name r) && conv_consts_wf (a_conv r).
 
+Definition drule_safe (d : drule) : bool :=
+  match d with DConst c => negb (is_nil c) && bytes_ok c | _ => true end.
+
 Fixpoint codec_safe (sc : schema) : bool :=
   match sc with
   | SNode tags ars d ks =>
     forallb str_wf tags && nodupb (names ars) && forallb arule_safe ars &&
     match d, ks with DNone, _ => true | _, KNil => true | _, _ => false end &&
-    codec_safe_kids ks
+    drule_safe d && codec_safe_kids ks
   end
 with codec_safe_kids (ks : krules) : bool :=
   match ks with KNil => true | KCons _ c ks' => codec_safe c && codec_safe_kids ks' end.
 
-(* value well-formedness: every string the entity's fields make put write is codec-safe *)
-Definition attr_val_wf (r : arule) (v : val) : bool :=
-  match put_attr r v with
-  | Some l => forallb attr_wf l
-  | None => true
+(* value well-formedness: every string the entity's fields make put write is codec-safe
+   (a value copied from the parent is well-formed because the parent's is) *)
+Definition attr_val_wf (r : arule) (v : fv) : bool :=
+  match a_conv r with
+  | CParent _ => true
+  | _ =>
+    match put_attr r [] v with
+    | Some l => forallb attr_wf l
+    | None => true
+    end
   end.
 
-Fixpoint attr_vals_wf (rs : list arule) (vs : list val) : bool :=
+Fixpoint attr_vals_wf (rs : list arule) (vs : list fv) : bool :=
   match rs, vs with
   | r :: rs', v :: vs' => attr_val_wf r v && attr_vals_wf rs' vs'
   | _, _ => true
   end.
 
-Definition data_val_wf (v : val) : bool :=
-  match v with VBytes b => negb (is_nil b) && forallb (fun c => c <? 256) b | _ => true end.
+Definition data_val_wf (PL : paylens) (v : val PL) : bool :=
+  match v with
+  | VBytes b => negb (is_nil b) && bytes_ok b
+  | VPay a => match pl_put PL a with Some b => negb (is_nil b) && bytes_ok b | None => true end
+  | _ => true
+  end.
 
-Fixpoint val_wf (sc : schema) (v : val) {struct sc} : bool :=
+Fixpoint val_wf (PL : paylens) (sc : schema) (v : val PL) {struct sc} : bool :=
   match sc with
   | SNode tags ars d ks =>
     match v with
-    | VList (VStr t :: VList va :: vd :: VList vk :: nil) =>
-      attr_vals_wf ars va && data_val_wf vd && vals_wf ks vk
+    | VList (VStr t :: VAttrs va :: vd :: VList vk :: nil) =>
+      (negb (is_nil tags) || str_wf t) && attr_vals_wf ars va && data_val_wf PL vd && vals_wf PL ks vk
     | _ => true
     end
   end
-with vals_wf (ks : krules) (vs : list val) {struct ks} : bool :=
+with vals_wf (PL : paylens) (ks : krules) (vs : list (val PL)) {struct ks} : bool :=
   match ks with
   | KNil => true
   | KCons m c ks' =>
@@ -627,8 +800,8 @@ with vals_wf (ks : krules) (vs : list val) {struct ks} : bool :=
     | [] => true
     | v :: vs' =>
       match m with
-      | MList _ => match v with VList l => forallb (val_wf c) l | _ => true end
-      | _ => if is_vnone v then true else val_wf c v
-      end && vals_wf ks' vs'
+      | MList _ => match v with VList l => forallb (val_wf PL c) l | _ => true end
+      | _ => if is_vnone v then true else val_wf PL c v
+      end && vals_wf PL ks' vs'
     end
   end.
